@@ -757,7 +757,7 @@ func runFrame(fr *frame) {
 					panic(pathAbort{abUnwind, "init budget"})
 				}
 			}
-			if m.Log != nil {
+			if m.Log != nil || debugWhere {
 				m.logFrame, m.logInstr = fr, instr
 			}
 			if visitInstr(fr, instr) == kReturn {
@@ -818,6 +818,9 @@ func doRecover(caller *frame) value {
 }
 
 // whereAmI names the call chain of the running goroutine (schedule log only).
+// GOSYM_WHERE=1: unsupported-operation messages carry the interpreter call chain
+var debugWhere = os.Getenv("GOSYM_WHERE") != ""
+
 func (m *Machine) whereAmI() string {
 	fr := m.logFrame
 	if fr == nil {
@@ -829,7 +832,11 @@ func (m *Machine) whereAmI() string {
 		pos = fmt.Sprintf(" %s:%d", filepath.Base(p.Filename), p.Line)
 	}
 	var chain []string
-	for f := fr; f != nil && len(chain) < 4; f = f.caller {
+	depth := 4
+	if debugWhere {
+		depth = 14
+	}
+	for f := fr; f != nil && len(chain) < depth; f = f.caller {
 		chain = append(chain, f.fn.RelString(nil))
 	}
 	return strings.Join(chain, " < ") + pos
